@@ -4,9 +4,11 @@
 package world
 
 import (
+	"errors"
 	"fmt"
 	"io"
 	"net"
+	"os"
 	"net/netip"
 	"strings"
 	"syscall"
@@ -218,6 +220,18 @@ type Remote struct {
 	EOF      bool
 	ReadErr  error
 	Done     bool
+	TimedOut bool
+}
+
+// Deadline makes subsequent reads fail once virtual time passes now+d (d<=0
+// removes the deadline).
+func (r *Remote) Deadline(d time.Duration) {
+	r.TimedOut = false
+	if d <= 0 {
+		r.C.SetReadDeadline(time.Time{})
+		return
+	}
+	r.C.SetReadDeadline(vrt.TimeNow().Add(d))
 }
 
 // NewRemote wraps the remote end of a connection.
@@ -267,6 +281,11 @@ func (r *Remote) ReadMsg() (wire.Msg, error) {
 		tmp := make([]byte, 8192)
 		n, rerr := r.C.Read(tmp)
 		r.buf = append(r.buf, tmp[:n]...)
+		if errors.Is(rerr, os.ErrDeadlineExceeded) {
+			r.TimedOut = true
+			r.W.Append(Event{Kind: "rx-timeout", Peer: r.Name, Conn: r.C.ID})
+			return wire.Msg{}, rerr
+		}
 		if rerr == io.EOF {
 			r.EOF = true
 			r.W.Append(Event{Kind: "rx-eof", Peer: r.Name, Conn: r.C.ID})
